@@ -204,7 +204,11 @@ def r07_4(run):
                "for v in <creator saved before nulling>.variables: v.clear_graph()" if ok else
                "upstream tensors are not all released")
     # every normal exit either had no creator or passed the null store
-    tests = [n for n, s in cfg.stmt.items() if cfg.label[n] == "If" and norm(s) in ("self._creator is None", "self.creator is None")]
+    saved_names = {assigned_name(s) for s in own_nodes(fi.node) if isinstance(s, ast.Assign) and assigned_name(s)
+                   and norm(s.value) in ("self._creator", "self.creator")}
+    tests = [n for n, s in cfg.stmt.items() if cfg.label[n] == "If" and isinstance(s, ast.Compare) and len(s.ops) == 1
+             and isinstance(s.ops[0], (ast.Is, ast.IsNot)) and isinstance(s.comparators[0], ast.Constant) and s.comparators[0].value is None
+             and (norm(s.left) in ("self._creator", "self.creator") or (isinstance(s.left, ast.Name) and s.left.id in saved_names))]
     w = cfg.all_paths_hit(ENTRY, {nn} | set(tests), exits=(EXIT,))
     ok = w is None and all(cfg.edge_dominates(t, "false", nn) or True for t in tests)
     run.ob("R07.4", loc(fi, nulls[0]), fi.short, "creator dropped on every call that had one", ok,
